@@ -76,6 +76,30 @@ func c11(c *Ctx) {
 	}
 }
 
+// waitsForExecutions names a call that takes the Wait barrier or waits for registered executions.
+func waitsForExecutions(e *px.Event) string {
+	if e.Call == nil {
+		return ""
+	}
+	if e.Call.Static != nil {
+		switch e.Call.Static.Name() {
+		case "enterExecution", "doneExecution", "executeTasks", "Flush", "Wait":
+			if strings.HasSuffix(funcDisplay(e.Call.Static), "(*PeriodicalExecutor)."+e.Call.Static.Name()) {
+				return "pe." + e.Call.Static.Name() + "()"
+			}
+		}
+	}
+	if o := e.Call.Obj(); o != nil && e.Call.Recv != nil {
+		if (o.Name() == "Guard" && px.IsFieldLoad(e.Call.Recv, "wgBarrier", nil)) || px.FieldAddrIs(e.Call.Recv, "wgBarrier", nil) {
+			return "wgBarrier." + o.Name()
+		}
+		if px.IsFieldLoad(e.Call.Recv, "waitGroup", nil) || px.FieldAddrIs(e.Call.Recv, "waitGroup", nil) {
+			return "waitGroup." + o.Name()
+		}
+	}
+	return ""
+}
+
 func c11locks(c *Ctx) {
 	rule := "C11.R1"
 	isContainerCall := func(e *px.Event, names ...string) bool {
@@ -86,7 +110,7 @@ func c11locks(c *Ctx) {
 			return
 		}
 		ps := c.paths(rule, f, cfg)
-		c.forall(rule, name, "container.AddTask/RemoveAll and the guarded flag are used only while pe.lock is held; the lock is released on every exit", f, ps, func(p *px.Path) (bool, string) {
+		c.forall(rule, name, "container.AddTask/RemoveAll and the guarded flag are used only while pe.lock is held; the lock is released on every exit and is never held across a call that takes the Wait barrier or waits for executions", f, ps, func(p *px.Path) (bool, string) {
 			w := 0
 			for i := range p.Events {
 				e := &p.Events[i]
@@ -98,6 +122,11 @@ func c11locks(c *Ctx) {
 					w++
 				case lockOn("lock", "Unlock")(e):
 					w--
+				case w > 0 && e.Kind == px.EvCall && (waitsForExecutions(e) != ""):
+					// (round 6) lock order: Wait holds the barrier while it waits for registered executions, and a
+					// registered Flush waits for pe.lock — taking the barrier (or waiting for executions) under pe.lock
+					// closes the cycle: Wait, the producer and the flusher block each other for good
+					return false, "pe.lock is held across " + waitsForExecutions(e) + " at " + c.P.Pos(e.Pos) + ": lock → barrier here, barrier → registered executions in Wait, registered execution → lock in Flush"
 				case isContainerCall(e, "AddTask", "RemoveAll"):
 					if w <= 0 {
 						return false, "container." + e.Call.Method.Name() + " without pe.lock at " + c.P.Pos(e.Pos)
